@@ -200,6 +200,11 @@ def run_one(seed, tier, explicit=None):
                 sim.load()
                 fresh_add(route, 'a', is_col)
                 sim.W.restart()
+                sim.m.add_resource(tgt['lexicons'])
+                if is_col:
+                    for r in sibs:
+                        sim.m.add_resource(r['lexicons'])
+                sim.check_installed()       # installed set + lookup tables (nothing leaks)
                 stats['evals'] += 1
                 stats['routes'][route] = stats['routes'].get(route, 0) + 1
                 if todo:
